@@ -146,4 +146,8 @@ class Block2Cache:
                 req.remote.maximum_payload_size,
             )
         else:
+            # A rendering that fits a single message replaces any earlier
+            # rendering for that key; later blocks must not be served from the
+            # stale one.
+            self._completes.pop(block_key, None)
             return assembled
